@@ -198,7 +198,21 @@ type AssignSet struct {
 	Desigs []*Desig
 }
 
+// ObjInv: an invariant of every object of a struct type, established where its fields are
+// written (obligation at return of each writing function) and assumed wherever a
+// reference to such an object is read.
+type ObjInv struct {
+	P     Pos
+	Type  string
+	Param string
+	Tags  []string
+	E     Expr
+	Text  string
+}
+
 type SpecFile struct {
+	OnlyWrites map[string][]string
+	ObjInvs   []*ObjInv
 	ASets     []*AssignSet
 	Funcs     []*SpecFunc
 	Ghosts    []*GhostField
@@ -381,7 +395,7 @@ var clauseKeywords = map[string]bool{
 	"requires": true, "ensures": true, "assigns": true, "panics": true, "decreases": true,
 	"loop": true, "dispatch": true, "like": true, "inline": true, "trusted": true,
 	"func": true, "extern": true, "spec": true, "ghost": true, "lemma": true, "bvtype": true,
-	"invariant": true, "cut": true, "globalfact": true, "frame": true, "noalloc": true, "at": true, "tags": true,
+	"invariant": true, "cut": true, "globalfact": true, "frame": true, "objinv": true, "onlywrites": true, "noalloc": true, "at": true, "tags": true,
 }
 
 // startsItem reports whether the current token begins a new clause/item (keyword at
@@ -466,6 +480,34 @@ func parseSpecFile(file string, lines []string, lineNos []int) (sf *SpecFile, er
 		case "globalfact":
 			lx.next()
 			sf.GFacts = append(sf.GFacts, lx.parseClause())
+		case "onlywrites":
+			lx.next()
+			raw := lx.restOfLine()
+			i := strings.Index(raw, ":")
+			if i < 0 {
+				lx.fail("onlywrites Type.field: F1, F2")
+			}
+			if sf.OnlyWrites == nil {
+				sf.OnlyWrites = map[string][]string{}
+			}
+			var fl []string
+			if strings.TrimSpace(raw[i+1:]) != "" {
+				fl = strings.Split(raw[i+1:], ",")
+			}
+			sf.OnlyWrites[raw[:i]] = fl
+		case "objinv":
+			lx.next()
+			oi := &ObjInv{P: lx.pos()}
+			oi.Tags = lx.parseTags()
+			oi.Type = lx.next().text
+			lx.expect("(")
+			oi.Param = lx.next().text
+			lx.expect(")")
+			lx.expect(":=")
+			from := lx.i
+			oi.E = lx.parseExpr()
+			oi.Text = lx.exprText(from, lx.i)
+			sf.ObjInvs = append(sf.ObjInvs, oi)
 		case "frame":
 			lx.next()
 			as := &AssignSet{P: lx.pos()}
@@ -633,7 +675,7 @@ func (lx *lexer) parseContract() *Contract {
 			lx.fail("unexpected token %q in contract of %s", t.text, c.FuncName)
 		}
 		switch t.text {
-		case "func", "extern", "spec", "ghost", "lemma", "bvtype", "globalfact", "frame":
+		case "func", "extern", "spec", "ghost", "lemma", "bvtype", "globalfact", "frame", "objinv", "onlywrites":
 			return c
 		case "requires":
 			lx.next()
